@@ -66,7 +66,7 @@ func setBytes(msg proto.Message, b []byte) {
 	m.Set(f, protoreflect.ValueOfBytes(append([]byte(nil), b...)))
 }
 
-// rawCodec: the payload is the value itself. Stable, binary.
+// rawCodec: the payload is the value itself. Stable, text (arbitrary bytes that a GET query has to escape; the real proto codec is the stable binary one).
 type rawCodec struct{}
 
 func (rawCodec) Name() string { return "raw" }
@@ -76,7 +76,7 @@ func (rawCodec) MarshalAppend(base []byte, msg proto.Message) ([]byte, error) {
 func (c rawCodec) MarshalAppendStable(base []byte, msg proto.Message) ([]byte, error) {
 	return c.MarshalAppend(base, msg)
 }
-func (rawCodec) IsBinary() bool { return true }
+func (rawCodec) IsBinary() bool { return false } // text: its bytes go into a GET query as they are, escaped (C19: the URL limit counts the escaped form)
 func (rawCodec) Unmarshal(data []byte, msg proto.Message) error {
 	setBytes(msg, data)
 	return nil
